@@ -9,7 +9,7 @@
    [enforced] (Json/CanonC01.v) of EnforcedCanonicalJSON; both are compared byte for byte with the
    library on every run. *)
 From Verif Require Import Lib.Bytes Json.Ast Json.Parse Json.Print Json.Render Json.NumFacts
-  Json.ParseComplete Json.CanonFacts Json.CanonC01 Json.CanonSpecC01 Json.C01Proofs Gen.GenVersions.
+  Json.ParseComplete Json.CanonFacts Json.CanonC01 Json.CanonSpecC01 Json.C01Proofs Json.CanonFormProofs Gen.GenVersions.
 Open Scope N_scope.
 
 (* every presentation of a value is accepted by the reference parser and read as that value *)
@@ -38,6 +38,14 @@ Proof. exact C01Proofs.canonical_separates. Qed.
 Theorem canonical_idempotent : forall v t c,
   RendersText v t -> canonical t = Some c -> canonical c = Some c.
 Proof. exact C01Proofs.canonical_idempotent. Qed.
+
+(* the output is in the one canonical form: nothing but structure outside strings (no whitespace),
+   only the shortest escapes inside strings, object keys strictly increasing in byte (= code point)
+   order at every level, no literal -0  (is_canonical_text, Json/CanonSpecC01.v); the domain is
+   texts without duplicate keys *)
+Theorem canonical_is_canonical_form : forall v t c,
+  RendersText v t -> json_nodup v = true -> canonical t = Some c -> is_canonical_text c = true.
+Proof. exact CanonFormProofs.canonical_is_canonical_form. Qed.
 
 (* reused by C02, C03, C13 *)
 Theorem canon_print_injective : forall v v',
@@ -117,6 +125,7 @@ Print Assumptions canonical_preserves_value.
 Print Assumptions canonical_unique.
 Print Assumptions canonical_separates.
 Print Assumptions canonical_idempotent.
+Print Assumptions canonical_is_canonical_form.
 Print Assumptions canon_print_injective.
 Print Assumptions canon_print_respects.
 Print Assumptions enforced_rejects_non_integers.
